@@ -249,7 +249,68 @@ _BPQ = _cls_methods(BPQ, 'boltons.queueutils', [
 for _sp in _BPQ:
     _sp['gen_file'] = 'queueutils_bpq'
 
+# boltons.ioutils (round 3c, C18): MultiFileReader and SpooledBytesIO (on SpooledIOBase).  Translated by
+# harness/py2lean_c18.py (spec key `translator`): the objects of the standard library the classes hold
+# (`io.BytesIO`, `tempfile.TemporaryFile`, the member files of a MultiFileReader) are SPEC-DECLARED ABSTRACT
+# OPERATIONS (py2lean_c18.FILE_OPS -> lean/BoltonsVerif/PyRtC18.lean `FileObj`, the abstract file `C18.File` of the
+# hand model).  Types: Int | Bool | None | Bytes (the sequence type the file holds) | List Bytes | File | List File |
+# Opaque (a value only passed on) | Fd | Option T.  `unit`: the unit type of the files (omitted: a type variable β).
+def _c18_methods(cls, methods):
+    out = []
+    for m in methods:
+        sp = dict(m, module='boltons.ioutils', cls=cls, method=True, translator='py2lean_c18', gen_file='ioutils',
+                  qualname='%s.%s' % (cls['name'], m['py']), lean_name='%s.%s' % (cls['lean_name'], m['name']),
+                  kind='function', raises=True)
+        out.append(sp)
+    cls['methods'] = out
+    return out
+
+
+MULTI_FILE_READER = {
+    'name': 'MultiFileReader', 'lean_name': 'MultiFileReader',
+    'state': {'_fileobjs': 'List File', '_index': 'Int', '_joiner': 'Bytes'},
+}
+_MFR = _c18_methods(MULTI_FILE_READER, [
+    {'py': 'read', 'name': 'read', 'params': {'amt': 'Option Int'}, 'result': 'Bytes',
+     'tie_theorem': 'C18.src_mfr_read_eq_model'},
+    {'py': 'seek', 'name': 'seek', 'params': {'offset': 'Int', 'whence': 'Int'}, 'result': 'None',
+     'tie_theorem': 'C18.src_mfr_seek_eq_model'},
+])
+# SpooledBytesIO(SpooledIOBase): `self.buffer` is the lazily creating property (accepted in one normal form, then it
+# IS the state field `_buffer`, an empty BytesIO in a fresh object); `os.fstat(fd)` of a descriptor obtained from the
+# object is about `_buffer` (`fd_of`); `nl`: the newline test of `readline` on this kind of file.
+SPOOLED_BYTES = {
+    'name': 'SpooledBytesIO', 'lean_name': 'SpooledBytesIO', 'mro': ['SpooledBytesIO', 'SpooledIOBase'],
+    'unit': 'UInt8', 'seq_class': 'bytes', 'nl': 'PyRtC18.isNL', 'fd_of': '_buffer',
+    'buffer_property': {'name': 'buffer', 'field': '_buffer', 'new': 'BytesIO'},
+    'state': {'_buffer': 'File', '_max_size': 'Int', '_dir': 'Opaque'},
+}
+_SB = _c18_methods(SPOOLED_BYTES, [
+    {'py': 'closed', 'name': 'closed', 'params': {}, 'result': 'Bool', 'tie_theorem': 'C18.src_sb_closed_eq_model'},
+    {'py': '_checkClosed', 'name': 'checkClosed', 'params': {'msg': 'Option Opaque'}, 'result': 'None',
+     'tie_theorem': 'C18.src_sb_checkClosed_eq_model'},
+    {'py': '_rolled', 'name': 'rolled', 'params': {}, 'result': 'Bool', 'tie_theorem': 'C18.src_sb_rolled_eq_model'},
+    {'py': 'tell', 'name': 'tell', 'params': {}, 'result': 'Int', 'tie_theorem': 'C18.src_sb_tell_eq_model'},
+    {'py': 'seek', 'name': 'seek', 'params': {'pos': 'Int', 'mode': 'Int'}, 'result': 'Int',
+     'tie_theorem': 'C18.src_sb_seek_eq_model'},
+    {'py': 'read', 'name': 'read', 'params': {'n': 'Int'}, 'result': 'Bytes',
+     'tie_theorem': 'C18.src_sb_read_eq_model'},
+    {'py': 'readline', 'name': 'readline', 'params': {'length': 'Option Int'}, 'result': 'Bytes',
+     'tie_theorem': 'C18.src_sb_readline_eq_model'},
+    {'py': 'rollover', 'name': 'rollover', 'params': {}, 'result': 'None',
+     'tie_theorem': 'C18.src_sb_rollover_eq_model'},
+    {'py': 'write', 'name': 'write', 'params': {'s': 'Bytes'}, 'result': 'None',
+     'tie_theorem': 'C18.src_sb_write_eq_model'},
+    {'py': 'fileno', 'name': 'fileno', 'params': {}, 'result': 'Fd', 'tie_theorem': 'C18.src_sb_fileno_eq_model'},
+    {'py': 'len', 'name': 'len', 'params': {}, 'result': 'Int', 'tie_theorem': 'C18.src_sb_len_eq_model'},
+    {'py': 'getvalue', 'name': 'getvalue', 'params': {}, 'result': 'Bytes',
+     'tie_theorem': 'C18.src_sb_getvalue_eq_model'},
+    {'py': 'truncate', 'name': 'truncate', 'params': {'size': 'Option Int'}, 'result': 'Option Int',
+     'tie_theorem': 'C18.src_sb_truncate_eq_model'},
+])
+
 SPECS = {
+    'C18': _MFR + _SB,
     'C02': _LRI + _LRU,
     'C20': _TC,
     'C17': _OTO + _M2M,
